@@ -193,42 +193,65 @@ func (e *env) runInsufficient(b batch, rnd *rand.Rand) {
 	tSend := time.Since(t0)
 	fp := e.takeFingerprint()
 	d := e.base.diff(fp)
-	e.report(b, cases, d)
 	if os.Getenv("C19_TIMING") != "" {
 		fmt.Printf("[%s] timing at=%s %-60s requests=%d send=%.2fs fingerprint=%.2fs\n", e.tag(), time.Now().Format("15:04:05.000"), b.Key, len(cases), tSend.Seconds(), (time.Since(t0) - tSend).Seconds())
 	}
-
-	if len(d) > 0 {
-		c.Count("batches-with-fingerprint-change", 1)
-		hadEscape := false
-		for _, k := range cases {
-			if k.Verdict == vEscaped {
-				hadEscape = true
-			}
-		}
+	if len(d) == 0 {
+		e.report(b, cases, nil)
+		return
+	}
+	// The state moved. Requests that act are order dependent (the second user to delete an
+	// object gets "not found"), so after repairing the fixture the requests that did not
+	// escape are sent again, until no further request escapes. State that moves in a pass in
+	// which every answer was a rejection is a side effect despite rejection.
+	c.Count("batches-with-fingerprint-change", 1)
+	all := append([]string{}, d...)
+	for pass := 0; pass < 4; pass++ {
 		e.repair()
-		// second pass with the requests that were answered by a rejection only: state must not move
+		newEscape := false
 		var again []oneCase
-		for _, k := range cases {
-			if k.Verdict == vRejected || k.Verdict == vNotReached || k.Verdict == vInBody {
-				k.Resp = e.send(k.Req)
-				e.lockGuard(k.Cred)
-				again = append(again, k)
+		for i := range cases {
+			k := &cases[i]
+			if k.Verdict != vRejected && k.Verdict != vNotReached && k.Verdict != vInBody {
+				continue
+			}
+			resp := e.send(k.Req)
+			e.lockGuard(k.Cred)
+			c.Eval(1)
+			if v := judgeInsufficient(k.Cred, anon, resp); v == vEscaped {
+				k.Resp, k.Verdict = resp, v
+				e.note(k.Cred.Class, v)
+				newEscape = true
+			} else {
+				again = append(again, oneCase{Cred: k.Cred, Req: k.Req, Resp: resp, Verdict: v})
 			}
 		}
-		d2 := e.base.diff(e.settleQuick())
-		if len(d2) > 0 {
+		d2 := e.base.diff(e.settle())
+		if len(d2) == 0 {
+			break
+		}
+		all = append(all, d2...)
+		if !newEscape {
 			if len(again) > 6 {
 				again = again[:6]
 			}
 			c.Violation("side-effect-despite-rejection:"+b.Key+":"+diffKinds(d2),
 				fmt.Sprintf("[%s] %s: requests that were all answered with a rejection changed the state: %s", e.tag(), b.Key, strings.Join(d2, "; ")),
 				map[string]any{"flavour": e.tag(), "kind": "side-effect", "case": b.Key, "need": b.Need.String(), "cases": again, "diff": d2})
-			e.repair()
-		} else if !hadEscape {
-			c.Inconclusive("fingerprint-change-not-reproduced:"+b.Key, 1)
+			break
 		}
 	}
+	e.repair()
+	hadEscape := false
+	for _, k := range cases {
+		if k.Verdict == vEscaped {
+			hadEscape = true
+		}
+	}
+	if !hadEscape && len(all) == len(d) {
+		c.Inconclusive("fingerprint-change-not-reproduced:"+b.Key, 1)
+	}
+	e.report(b, cases, all)
 }
 
 // report turns the verdicts of one batch into violations.
